@@ -187,7 +187,7 @@ pub fn interp_bulk(thorough: bool) -> Report {
     let g = grid(thorough);
     let max_len = if thorough { 19 } else { 5 };
     r.space = format!(
-        "every RegOp variant ({}) x {} placements x slice lengths 0..={} x rotating windows of the {}-value operand grid (every ordered operand pair appears at some lane) x VmFloatSliceEval::eval; oracle = reference opcode meaning per lane, bitwise; also out.len()==1 and exactly n samples",
+        "every RegOp variant ({}) x {} placements x slice lengths 0..={} x rotating windows of the {}-value operand grid (every ordered operand pair appears at some lane) x VmFloatSliceEval::eval; plus 6 multi-output root lists (a node on several outputs, a root that is an operand of another root listed before / after it, constant roots, more outputs than registers) x budgets 3 and 255 x 4 slice lengths with one reused evaluator against Context::eval; oracle = reference opcode meaning per lane, bitwise; also out.len()==1 and exactly n samples",
         op_table().len(), placements(thorough).len(), max_len, g.len());
     let mut eval = VmFunction::new_float_slice_eval();
     // all ordered pairs, flattened, so that windows cover every pair
@@ -249,10 +249,81 @@ pub fn interp_bulk(thorough: bool) -> Report {
             }
         }
     }
+    multi_output_bulk(&mut r);
     r.distinct = r.cases;
     r.exhaustive = true;
     r.sample(json!({"op":"MinRegReg","place":"Direct(0,0,1)","len":3,"xs":"[NaN,NaN,NaN]","ys":"[NaN,0.0,-0.0]"}));
     r
+}
+
+/// "for any number of outputs": root lists with a node bound to several outputs, a root that is an operand of another root (listed before
+/// and after it), a constant root, more outputs than registers; every output lane of the float-slice interpreter against Context::eval,
+/// register budgets 3 (spills) and 255, one evaluator object per budget reused across all functions
+fn multi_output_bulk(r: &mut Report) {
+    use fidget_core::context::{Context, Node};
+    use fidget_core::eval::MathFunction;
+    use fidget_core::vm::GenericVmFunction;
+    let mut c = Context::new();
+    let (x, y) = (c.x(), c.y());
+    let a = c.sub(x, y).unwrap();
+    let s = c.sin(a).unwrap();
+    let m = c.mul(x, y).unwrap();
+    let d = c.div(s, m).unwrap();
+    let k = c.constant(1.5);
+    let mn = c.min(x, y).unwrap();
+    let sq = c.square(x).unwrap();
+    let lists: Vec<(&str, Vec<Node>)> = vec![
+        ("[a, a]", vec![a, a]),
+        ("[m, a, d, m]", vec![m, a, d, m]),
+        ("[sin(a)/m, a]", vec![d, a]),
+        ("[a, sin(a)/m]", vec![a, d]),
+        ("[1.5, a, 1.5]", vec![k, a, k]),
+        ("[a, s, m, d, mn, sq, x, a, s]", vec![a, s, m, d, mn, sq, x, a, s]),
+    ];
+    let xs: Vec<f32> = vec![0.5, -2.5, 3.0, 0.0, -0.0, 1.0e20, f32::NAN, 0.25, f32::INFINITY, -1.0, 7.5];
+    let ys: Vec<f32> = vec![1.5, 0.5, -3.0, 2.0, 0.0, 1.0e-20, 1.0, f32::NAN, 2.0, -1.0, 0.125];
+    fn run<F: MathFunction + Function>(r: &mut Report, budget: &str, c: &Context, lists: &[(&str, Vec<Node>)], xs: &[f32], ys: &[f32]) {
+        let mut eval = F::new_float_slice_eval();
+        for (name, roots) in lists {
+            let f = F::new(c, roots).expect("function");
+            let tape = f.float_slice_tape(Default::default());
+            for len in [xs.len(), 3, 0, 1] {
+                r.cases += 1;
+                let (xv, yv) = (xs[..len].to_vec(), ys[..len].to_vec());
+                let sig = format!("multi-output:{budget}:{name}:len={len}");
+                // arguments are bound through the function's variable map (first-encounter order), not positionally
+                let vm = f.vars();
+                let zero = vec![0.0f32; len];
+                let mut args: Vec<&[f32]> = vec![zero.as_slice(); vm.len()];
+                if let Some(i) = vm.get(&Var::X) { args[i] = xv.as_slice(); }
+                if let Some(i) = vm.get(&Var::Y) { args[i] = yv.as_slice(); }
+                match eval.eval(&tape, &args) {
+                    Err(e) => r.fail(sig, format!("eval error {e:?}"), json!({"contract":"interp_bulk"})),
+                    Ok(out) => {
+                        if out.len() != roots.len() {
+                            r.fail(sig, format!("[multi-output-shape] {} output rows for {} roots", out.len(), roots.len()), json!({"contract":"interp_bulk"}));
+                            continue;
+                        }
+                        'o: for (oi, root) in roots.iter().enumerate() {
+                            if out[oi].len() != len {
+                                r.fail(sig.clone(), format!("[multi-output-shape] output {oi} has {} samples for {len}", out[oi].len()), json!({"contract":"interp_bulk"}));
+                                break;
+                            }
+                            for q in 0..len {
+                                let want = c.eval_xyz(*root, xv[q], yv[q], 0.0).unwrap();
+                                if !bits_eq(out[oi][q], want) {
+                                    r.fail(format!("{sig}:output={oi}:lane={q}"), format!("[multi-output-value] output {oi} lane {q} = {} but the graph evaluates to {}", fmt_f(out[oi][q]), fmt_f(want)), json!({"contract":"interp_bulk"}));
+                                    break 'o;
+                                }
+                            }
+                        }
+                    }
+                }
+            }
+        }
+    }
+    run::<GenericVmFunction<3>>(r, "N=3", &c, &lists, &xs, &ys);
+    run::<VmFunction>(r, "N=255", &c, &lists, &xs, &ys);
 }
 
 fn ulp_slack(v: f32) -> f32 {
